@@ -2698,6 +2698,10 @@ def fixup_dilation_gt2(op: Operation, arch, nng) -> Operation:
 
             new_kernel_shape = [new_kernel_h, new_kernel_w, kernel_ic, kernel_oc]
             new_kernel_values = np.zeros(new_kernel_shape, dtype=op.weights.values.dtype)
+            # the inserted weights must not contribute, so they get the value that represents zero
+            weight_quant = op.weights.quantization
+            if weight_quant is not None and weight_quant.zero_point is not None:
+                new_kernel_values[...] = weight_quant.zero_point
 
             # copy the original kernel values into the new sparse kernel
             for h in range(0, kernel_h):
